@@ -373,22 +373,28 @@ mod verif_bounded_glob {
 _CACHE = {}
 
 
-def backup_bounded():
+def backup_bounded(repo=None, overlay=None):
     """returns dict(ok, cases, failures[], wall_s, bound)"""
-    if REPO in _CACHE:          # one run serves every property of an invocation
-        return _CACHE[REPO]
+    repo = repo or REPO
+    if overlay is None and repo in _CACHE:          # one run serves every property of an invocation
+        return _CACHE[repo]
     wd = tempfile.mkdtemp(prefix='xcpverif-bnd-')
     t0 = time.time()
     try:
-        for item in os.listdir(REPO):
+        for item in os.listdir(repo):
             if item in ('target', '.git'):
                 continue
-            src = os.path.join(REPO, item)
+            src = os.path.join(repo, item)
             dst = os.path.join(wd, item)
             if os.path.isdir(src):
                 shutil.copytree(src, dst, symlinks=True)
             else:
                 shutil.copy(src, dst)
+        if overlay:
+            # the sources of a scratch copy (a seeded or mutated tree) over the rest of the repository
+            for sub in ('src', 'libfs/src', 'libxcp/src'):
+                shutil.rmtree(os.path.join(wd, sub), ignore_errors=True)
+                shutil.copytree(os.path.join(overlay, sub), os.path.join(wd, sub))
         with open(os.path.join(wd, 'libxcp', 'src', 'backup.rs'), 'a') as f:
             f.write(BACKUP_MOD)
         with open(os.path.join(wd, 'libxcp', 'src', 'config.rs'), 'a') as f:
@@ -421,7 +427,8 @@ def backup_bounded():
             'wall_s': round(time.time() - t0, 1),
             'tail': '' if ran is not None else out[-1500:],
         }
-        _CACHE[REPO] = res
+        if overlay is None:
+            _CACHE[repo] = res
         return res
     finally:
         shutil.rmtree(wd, ignore_errors=True)
